@@ -280,7 +280,7 @@ class BaseResponse:
                         self._content_length = 0
                     if self._content_length:
                         self.status_code = HTTP_PARTIAL_CONTENT
-                        self.__headers.add("Content-Range", str(content_range))
+                        self.__headers["Content-Range"] = str(content_range)
                         # Content-Lenght header must be modified
                         self.__headers["Content-Length"] = \
                             str(self._content_length)
@@ -650,7 +650,8 @@ class NoContentResponse(BaseResponse):
 
     def __start_response__(self, start_response: Callable):
         start_response(
-            "%d %s" % (self.status_code, self.reason), [])
+            "%d %s" % (self.status_code, self.reason),
+            list(self.headers.items()))
 
 
 class EmptyResponse(NoContentResponse):
@@ -899,7 +900,8 @@ def make_response(data: Optional[Union[str, bytes, dict, Iterable[bytes]]],
             return Response(data, content_type, headers, status_code)
         if isinstance(data, dict):
             return JSONResponse(data, headers=headers, status_code=status_code)
-        if isinstance(data, list) and not isinstance(data[0], bytes):
+        if isinstance(data, list) and \
+                (not data or not isinstance(data[0], bytes)):
             return JSONResponse(data, headers=headers, status_code=status_code)
         if data is None:
             if status_code == HTTP_OK:
